@@ -192,7 +192,9 @@ def canary():
     cfg = sklearn.get_config()
     outs.append(("settings", sorted((k, repr(v)) for k, v in np.geterr().items()),
                  sorted((k, repr(v)) for k, v in cfg.items()),
-                 repr(pd.get_option("mode.chained_assignment")), repr(np.get_printoptions().get("precision"))))
+                 repr(pd.get_option("mode.chained_assignment")), repr(np.get_printoptions().get("precision")),
+                 # the warnings filters (a call that turns warnings into errors, or silences them, for everybody)
+                 [(f[0], getattr(f[2], "__name__", str(f[2])), str(f[1]), str(f[3]), f[4]) for f in __import__("warnings").filters]))
     return outs
 
 
